@@ -985,7 +985,13 @@ func (c PrepareCallInstr) execute(env *Zlisp) error {
 				if err := env.resolveDotArgsOnStack(nargs); err != nil {
 					return err
 				}
-				if err := env.prepareLazyCallArgs(g, &nargs); err != nil {
+				// the jump of a tail call must not skip the name and type
+				// checks an ordinary call of a typed function gets.
+				if g.inputTypes != nil && !g.varargs {
+					if err := env.FunctionCallNameTypeCheck(g, &nargs); err != nil {
+						return err
+					}
+				} else if err := env.prepareLazyCallArgs(g, &nargs); err != nil {
 					return err
 				}
 				if g.varargs {
@@ -1001,7 +1007,13 @@ func (c PrepareCallInstr) execute(env *Zlisp) error {
 			if err := env.resolveDotArgsOnStack(nargs); err != nil {
 				return err
 			}
-			if err := env.prepareLazyCallArgs(f, &nargs); err != nil {
+			// the jump of a tail call must not skip the name and type
+			// checks an ordinary call of a typed function gets.
+			if f.inputTypes != nil && !f.varargs {
+				if err := env.FunctionCallNameTypeCheck(f, &nargs); err != nil {
+					return err
+				}
+			} else if err := env.prepareLazyCallArgs(f, &nargs); err != nil {
 				return err
 			}
 			if f.varargs {
